@@ -9,13 +9,16 @@ Section Sound.
   Variable chk : checker.
   Variable Inv : sys -> Prop.
 
+  Variable dir_ok : directive -> Prop.     (* what the theorem assumes of the schedule, e.g. well-formed requests *)
+
   Hypothesis step_ok : forall s d s' ob,
-      Inv s -> step cfg s d = Some (s', ob) -> Inv s' /\ chk (s_now s) (s_db s) d ob = [].
+      Inv s -> dir_ok d -> step cfg s d = Some (s', ob) -> Inv s' /\ chk (s_now s) (s_db s) d ob = [].
 
   Lemma step_now : forall s d s' ob, step cfg s d = Some (s', ob) -> s_now s' = mon_now (s_now s) d.
   Proof.
     intros s d s' ob H. destruct d; cbn in H.
     - destruct (t <? s_now s); [discriminate|].
+      destruct (negb (ids_fresh s _)); [discriminate|].
       destruct (take_deliveries deliver (s_pend s)) as [[ds pl]|]; [|discriminate].
       destruct (run_insts cfg t (s_group s) ds (s_insts s)) as [[il1 pl1] ob1].
       destruct (start_insts _ _) as [[il2 pl2] ob2]. inversion H; reflexivity.
@@ -66,6 +69,7 @@ Section Sound.
   Proof.
     intros s d s' ob H. destruct d; cbn in H.
     - destruct (t <? s_now s); [discriminate|].
+      destruct (negb (ids_fresh s _)); [discriminate|].
       destruct (take_deliveries deliver (s_pend s)) as [[ds pl]|]; [|discriminate].
       destruct (run_insts cfg t (s_group s) ds (s_insts s)) as [[il1 pl1] ob1] eqn:E1.
       destruct (start_insts _ _) as [[il2 pl2] ob2] eqn:E2. inversion H; subst; cbn.
@@ -86,14 +90,14 @@ Section Sound.
   Qed.
 
   Lemma mon_from_sound : forall sch s i,
-      Inv s -> mon_from chk (s_now s) (s_db s) i (events_from cfg s sch) = [].
+      Inv s -> Forall dir_ok sch -> mon_from chk (s_now s) (s_db s) i (events_from cfg s sch) = [].
   Proof.
-    induction sch as [|d sch IH]; intros s i HI; cbn; [reflexivity|].
+    induction sch as [|d sch IH]; intros s i HI Hd; cbn; [reflexivity|]. inversion Hd; subst.
     destruct (step cfg s d) as [[s' ob]|] eqn:E; cbn; [|reflexivity].
-    destruct (step_ok s d s' ob HI E) as [HI' Hc]. rewrite Hc; cbn.
-    rewrite <- (step_now s d s' ob E), <- (step_db s d s' ob E). apply IH; exact HI'.
+    destruct (step_ok s d s' ob HI H1 E) as [HI' Hc]. rewrite Hc; cbn.
+    rewrite <- (step_now s d s' ob E), <- (step_db s d s' ob E). apply IH; assumption.
   Qed.
 
-  Theorem mon_sound : Inv (sys0 db0) -> forall sch, mon chk (events cfg sch) = [].
-  Proof. intros H0 sch. unfold mon, events. apply (mon_from_sound sch (sys0 db0) 0 H0). Qed.
+  Theorem mon_sound : Inv (sys0 db0) -> forall sch, Forall dir_ok sch -> mon chk (events cfg sch) = [].
+  Proof. intros H0 sch Hd. unfold mon, events. apply (mon_from_sound sch (sys0 db0) 0 H0 Hd). Qed.
 End Sound.
